@@ -2,7 +2,7 @@
   Helper lemmas for C12 (MdModel.Once): field projections of the state helpers, and the
   "at most one supplier call per key" invariant.
 -/
-import MdModel.Once
+import MdModel.OnceCore
 namespace MdModel.Once
 open MdModel
 
